@@ -1,0 +1,28 @@
+//go:build verif
+
+package synchronization
+
+import (
+	"github.com/mutagen-io/mutagen/pkg/synchronization/core"
+)
+
+// VerifC11OneEndpointEmptiedRoot exposes oneEndpointEmptiedRoot to the
+// verification harness (properties C11, C18).
+func VerifC11OneEndpointEmptiedRoot(ancestor, alpha, beta *core.Entry) bool {
+	return oneEndpointEmptiedRoot(ancestor, alpha, beta)
+}
+
+// VerifC11ContainsRootDeletion exposes containsRootDeletion.
+func VerifC11ContainsRootDeletion(changes []*core.Change) bool {
+	return containsRootDeletion(changes)
+}
+
+// VerifC11ContainsRootTypeChange exposes containsRootTypeChange.
+func VerifC11ContainsRootTypeChange(changes []*core.Change) bool {
+	return containsRootTypeChange(changes)
+}
+
+// VerifC11FilteredPathsAreSubset exposes filteredPathsAreSubset.
+func VerifC11FilteredPathsAreSubset(filteredPaths, originalPaths []string) bool {
+	return filteredPathsAreSubset(filteredPaths, originalPaths)
+}
